@@ -103,7 +103,8 @@ class Select(SubCheck):
     ]
     stubs = [
         "vf/models/core_model.py Read/ReadSet in place of the compiled whatshap.core (validated by the per-path replay on real whatshap.core objects)",
-        "DeCy shims vector/unordered_set/pair/pointer (vf/decy/shims.py); the repo's tests/test_readselect.py are run against the translation in setup()",
+        "DeCy shims vector/unordered_set/pair/pointer (vf/decy/shims.py); the inputs of the repo's tests/test_readselect.py are run through the translation and the compiled build in setup() and must agree",
+        "order independence on replay: the compiled build (libstdc++'s own bucket order) is compared with the translation run concretely under the solver-chosen traversal order; a step bound on CovMonitor.max_coverage_in_range turns a selection loop that never ends into an observable failure",
     ]
     required_cover = [
         "a read is left out", "all reads selected", "cap reached at some variant", "preferred read selected", "bridging on",
@@ -186,10 +187,10 @@ class Select(SubCheck):
         real = _locked_load_real(build, ["core", "priorityqueue", "readselect"])
         import whatshap.coverage
 
-        self._selftest(core_model, real["readselect"].readselection)
         self.real = _Impl(real["core"].Read, real["core"].ReadSet, real["readselect"].readselection, lambda fn: None, whatshap.coverage.CovMonitor)
+        self._selftest(core_model, self.real)
 
-    def _selftest(self, core_model, real_readselection):
+    def _selftest(self, core_model, real_impl):
         """DeCy self-test: the inputs of the repo's own tests/test_readselect.py are run through the translation and
         through the compiled build; every call must return the same set.  (The tests' expected values are not
         asserted here: a changed tree may legitimately change them, that is the repo's test-suite's business.)"""
@@ -201,11 +202,16 @@ class Select(SubCheck):
         src = open(os.path.join(REPO, "tests", "test_readselect.py")).read()
         src = src.replace("from whatshap.readselect import readselection", "").replace("from whatshap.testhelpers import string_to_readset", "")
         logs = []
-        for fn, helper in ((mod.readselection, th.string_to_readset), (real_readselection, real_th.string_to_readset)):
+        sym_impl = _Impl(core_model.Read, core_model.ReadSet, mod.readselection, lambda fn: None, mod.CovMonitor)
+        for impl, helper in ((sym_impl, th.string_to_readset), (real_impl, real_th.string_to_readset)):
             log = []
 
-            def rec(*a, _fn=fn, _log=log, **kw):
-                r = _fn(*a, **kw)
+            def rec(reads, max_cov, preferred_source_ids=None, bridging=True, _impl=impl, _log=log):
+                try:  # step-bounded like the harness, so that a tree whose selection loop never ends cannot hang setup()
+                    r = _impl.readselection(reads, max_cov, preferred_source_ids, bridging, limit=20000)
+                except _NoResult:
+                    _log.append("no result within 20000 coverage queries")
+                    return set()
                 _log.append(sorted(r))
                 return r
 
@@ -244,16 +250,28 @@ class Select(SubCheck):
             # bound, symbolically and on replay); the remaining paths of the job are dropped, the job is red anyway
             e.assume(False)
         k = e.int("k", 1, 3)
-        rs = impl.ReadSet()
+        # `steer`: the implementation whose unordered_set order the hook can steer.  Symbolically that is the
+        # translation itself (run 1 identity order, run 2 steered).  On replay run 1 is the compiled build (libstdc++'s
+        # own order) and run 2 the translation executed concretely under the order the solver chose, so that a result
+        # which depends on the unspecified order shows up as a reproduced disagreement instead of an unreproducible one.
+        steer = impl if e.symbolic else self.sym
+        rs, rs2 = impl.ReadSet(), (None if steer is impl else steer.ReadSet())
         prefbit = []
-        minq = []
         for i, cov in enumerate(reads):
             p = e.bit("pref%d" % i) if pref else 0
             prefbit.append(p)
             r = impl.Read("r%d" % i, 50, p)
+            r2 = None if rs2 is None else steer.Read("r%d" % i, 50, p)
             for j in cov:
-                r.add_variant(POS[j], (i + j) % 2, e.int("q%d_%d" % (i, j), 0, 3))
+                q = e.int("q%d_%d" % (i, j), 0, 3)
+                r.add_variant(POS[j], (i + j) % 2, q)
+                if r2 is not None:
+                    r2.add_variant(POS[j], (i + j) % 2, q)
             rs.add(r)
+            if r2 is not None:
+                rs2.add(r2)
+        if rs2 is None:
+            rs2 = rs
         preferred = {1} if pref else None
 
         limit = 4 * R * R + 16
@@ -289,18 +307,18 @@ class Select(SubCheck):
                 e.cover("unordered_set iterated in a non-identity order")
             return [items[x] for x in p]
 
-        impl.set_order(hook)
+        steer.set_order(hook)
         try:
-            sel1 = impl.readselection(rs, k, preferred, bridging, limit)
+            sel1 = steer.readselection(rs2, k, preferred, bridging, limit)
         except _NoResult:
             sel1 = None
         finally:
-            impl.set_order(None)
+            steer.set_order(None)
         e.check(sel1 is not None, "readselection does not terminate under a permuted unordered_set order", ctx0)
         e.out("selected", sorted(sel0))
         e.out("selected_permuted", sorted(sel1))
         ctx = lambda: dict(reads=reads, selected=sorted(sel0), bridging=bridging, preferred=[i for i in range(R) if prefbit[i]], k=e.value(k), selected_permuted=sorted(sel1))
-        e.check(sorted(sel0) == sorted(sel1), "selection depends on the iteration order of the unordered_set", ctx)
+        e.check(sorted(sel0) == sorted(sel1), "selection depends on the iteration order of the unordered_set (insertion order resp. the compiled build vs. the steered order give different sets)", ctx)
 
         # ---- oracle, from the statement ----
         sel = set(sel0)
